@@ -1053,6 +1053,7 @@ func runC10(c *Ctx) {
 	checkRepliesFixedWhenHandlerReturns(c, "R11")
 	// R12 (shared with C17.R3): the attribute flags a handler reads through AttrFlags() are the bits the client sent
 	checkAttrFlagBits(c, "R12")
+	checkStartDirectoryIsTheBase(c, "R2")
 }
 
 // checkRepliesFixedWhenHandlerReturns (R11): a reply is marshalled by the packet manager's controller after it was
@@ -1485,4 +1486,51 @@ func checkFilecmdMethodNames(c *Ctx, rule string) {
 			"a "+s+" request can reach FileCmder.Filecmd with Method == \""+s+"\", which the interface does not define: a handler without the optional interface answers \"unsupported\" (for PosixRename the documentation promises the behaviour of Rename)")
 	}
 	c.check(n >= 2, rule, "methods of optional interfaces in filecmd", p.Pos(fn.Pos()), fmt.Sprintf("%d branches", n), fmt.Sprintf("only %d such branches found (PosixRename, StatVFS expected)", n))
+}
+
+// checkStartDirectoryIsTheBase (C10.R2 / C16.R15): in the request server every request path is made absolute against the
+// configured start directory — each call of requestFromPacket and of cleanPathWithBase in a method of RequestServer
+// passes the startDirectory field as the base, not a constant.  With "/" in one arm (OPENDIR, say) a relative name
+// lists or opens another directory than the same name does in every other request.
+func checkStartDirectoryIsTheBase(c *Ctx, rule string) {
+	p := c.P
+	n := 0
+	for _, fn := range p.LibFuncs() {
+		of := outermost(fn)
+		if of.Package() != p.Sftp || of.Signature.Recv() == nil || typeName(of.Signature.Recv().Type()) != "RequestServer" {
+			continue
+		}
+		eachInstr(fn, func(in ssa.Instruction) {
+			cc := callOf(in)
+			if cc == nil || cc.StaticCallee() == nil {
+				return
+			}
+			var base ssa.Value
+			switch fnName(cc.StaticCallee()) {
+			case "requestFromPacket":
+				if len(cc.Args) == 3 {
+					base = cc.Args[2]
+				}
+			case "cleanPathWithBase":
+				if len(cc.Args) == 2 {
+					base = cc.Args[0]
+				}
+			}
+			if base == nil {
+				return
+			}
+			n++
+			ok := false
+			for _, l := range leavesOf(base) {
+				if l.Kind == leafFieldLoad && l.Field == "startDirectory" {
+					ok = true
+				} else {
+					ok = false
+					break
+				}
+			}
+			c.check(ok, rule, "base directory of "+calleeName(cc)+" in "+fnName(fn), p.Pos(in.Pos()), "rs.startDirectory", "a request path is made absolute against something other than the configured start directory: relative names mean another place in this request than in the others")
+		})
+	}
+	c.check(n >= 8, rule, "path-cleaning calls in the request server", "?", fmt.Sprintf("%d calls", n), fmt.Sprintf("only %d calls of requestFromPacket/cleanPathWithBase found in RequestServer's methods", n))
 }
